@@ -84,7 +84,7 @@ class TornadoEventLoop(EventLoop):
         @functools.wraps(callback)
         def wrapper(*args: _Spec.args, **kwargs: _Spec.kwargs) -> _T:
             if not self._idle_asyncio_handle:
-                self._idle_asyncio_handle = self._loop.call_later(0, self._entering_idle)
+                self._idle_asyncio_handle = self._loop.call_later(0, self.handle_exit(self._entering_idle))
             return callback(*args, **kwargs)
 
         return wrapper
